@@ -58,6 +58,27 @@ CLAIMED = {
  "C27": dict(tech="stateful property-based testing (Hypothesis-generated call-pacing scripts); metamorphic oracle across pacing patterns + deadlock signature",
              text="Generated send/poll/sleep scripts; the drain-after-every-send pattern must complete and all completing patterns must yield identical bytes.",
              note="speed_control_flag=1 excluded (documented as timing-adaptive).", ref="4 C27"),
+ "C07": dict(tech="property-based testing (rapidcheck, in-process): differential oracle SIMD variant vs C reference over generated kernel arguments, table generated from the tree's RTCD files", engine="rapidcheck-harness",
+             text="743 of 767 dispatch entries with a SIMD variant are bound to family drivers; per entry and ISA variant rapidcheck generates edge-biased arguments and compares outputs, return values and guard bands with the C reference under ASan.",
+             note="Family descriptors (oracles/c07_families.json) encode the callers' domain; 24 entries undecided (listed in evidence).", ref="4 C07"),
+ "C08": dict(tech="property-based testing (Hypothesis): differential oracle SVT decoder vs libaom AND dav1d on streams from two independent encoders (SVT, libaom via dlopen)",
+             text="Generated encoder settings for both encoders produce streams; SVT decoder output (either pipeline bit depth, low-overhead or Annex-B framing) must equal both reference decoders picture for picture.",
+             note="Streams on which the two references disagree/fail are inconclusive; tool usage measured from headers + H4 block counters.", ref="4 C08"),
+ "C09": dict(tech="property-based testing (Hypothesis) with schedule stress (affinity squeeze, H1 perturbation): differential oracle vs single-thread decode, ASan/LSan, termination",
+             text="Generated streams x thread counts 2..16 x stressors; pictures must equal the 1-thread decode, no sanitizer report, teardown returns.",
+             note="Data-race clause not decided (spin-wait synchronisation is opaque to TSan); see assumptions in evidence.", ref="4 C09"),
+ "C10": dict(tech="coverage-guided fuzzing (libFuzzer + ASan + UBSan) with a structure-aware target and an OBU-aware custom mutator", engine="libfuzzer",
+             text="Two campaigns (seeded corpus of 50 tiny valid streams, empty corpus) in fork mode; every artifact is re-run standalone and keyed by sanitizer kind + innermost library frame; known keys are listed findings.",
+             note="The decoder marks corrupt syntax with assert(0)-and-continue in release builds: the listed known findings are the crash sites reachable through that design.", ref="4 C10"),
+ "C23": dict(tech="stateful property-based testing (rapidcheck) of the real SRM under a harness-owned thread schedule + validation of H2 traces from real encodes against a reference model", engine="rapidcheck-harness",
+             text="Generated SRM shapes, per-thread programs and schedules run on the real code with real pthreads serialised by a token; model checked after every step; real-encode traces validated with the same invariants.",
+             note="Bounded shapes; programs follow caller discipline.", ref="4 C23"),
+ "C24": dict(tech="exhaustive geometry enumeration + property-based protocol schedules (rapidcheck) on the real segment code + validation of H3 traces from real encodes", engine="rapidcheck-harness",
+             text="All picture/segment grids in the bounded space through the real ctor/init/assign code, protocol simulated under generated worker schedules, plus real-encode traces; oracle from SB coordinates only.",
+             note="Quick subsamples the segment-count dimension (exhaustive=false); thorough enumerates everything.", ref="4 C24"),
+ "C25": dict(tech="property-based testing (rapidcheck, in-process): round-trip oracle writer -> reader on the real range coder, plus exhaustive short sequences", engine="rapidcheck-harness",
+             text="Generated symbol/bool/literal sequences with valid CDFs (incl. extreme) are written with the encoder's coder and read back with the decoder's reader; values, adapted CDFs and the tell law are compared.",
+             note="Reader gets 16 zero bytes of look-ahead after the announced size.", ref="4 C25"),
 }
 
 NOT_APPLICABLE = {
